@@ -112,7 +112,7 @@ Qed.
    The terminal outcome is left open here (exists o). *)
 Lemma stream_coarse rq f :
   match skind_of f with
-  | SNext d => step rq Streaming f = (Streaming, ERecv :: if truthy d then [EYield d] else [])
+  | SNext d => step rq Streaming f = (Streaming, ERecv :: if nonnull d then [EYield d] else [])
   | SPing => step rq Streaming f = (Streaming, [ERecv; ESend pong_msg])
   | SPong | SAck | SIgnored => step rq Streaming f = (Streaming, [ERecv])
   | SComplete => step rq Streaming f = (Done Finished, [ERecv; EClose])
@@ -203,7 +203,7 @@ Proof.
   simpl. unfold count_pings in *. pose proof (stream_coarse rq f) as C.
   destruct (skind_of f) eqn:K; simpl;
     try (rewrite C; destruct (run_from rq Streaming r) as [e q]; simpl in *; rewrite K; simpl;
-         try (destruct (truthy d)); simpl; rewrite ?IH; reflexivity).
+         try (destruct (nonnull d)); simpl; rewrite ?IH; reflexivity).
   - (* complete *) rewrite C, run_done. simpl. rewrite K. reflexivity.
   - destruct C as [o C]. rewrite C, run_done. simpl. rewrite K. reflexivity.
   - destruct C as [o C]. rewrite C, run_done. simpl. rewrite K. reflexivity.
@@ -263,10 +263,10 @@ Proof.
 Qed.
 
 (* yields: no shape guard needed *)
-Lemma run_stream_yields rq r : g_truthy r = true ->
+Lemma run_stream_yields rq r : g_nonnull r = true ->
   yielded_of (fst (run_from rq Streaming r)) = yielded_of (fst (spec_stream r)).
 Proof.
-  unfold g_truthy. induction r as [|f r IH]; [reflexivity|].
+  unfold g_nonnull. induction r as [|f r IH]; [reflexivity|].
   simpl. pose proof (stream_coarse rq f) as C.
   destruct (skind_of f) eqn:K; simpl; rewrite ?K; simpl; intros T;
     try (destruct C as [o C]; rewrite C, run_done; reflexivity);
@@ -285,11 +285,11 @@ Proof.
 Qed.
 
 (* the whole streaming run equals the specification under the two frame guards *)
-Lemma run_stream_conform rq r : forallb shape_ok (spec_prefix r) = true -> g_truthy r = true ->
+Lemma run_stream_conform rq r : forallb shape_ok (spec_prefix r) = true -> g_nonnull r = true ->
   fst (run_from rq Streaming r) = fst (spec_stream r) /\
   finish (snd (run_from rq Streaming r)) = snd (spec_stream r).
 Proof.
-  unfold g_truthy. induction r as [|f r IH]; [split; reflexivity|].
+  unfold g_nonnull. induction r as [|f r IH]; [split; reflexivity|].
   simpl. pose proof (stream_coarse rq f) as C.
   destruct (skind_of f) eqn:K; simpl; rewrite ?K; simpl; intros Sh T;
     apply andb_true_iff in Sh as [Shf Sh].
@@ -317,7 +317,7 @@ Qed.
 (* the master statement: under the four guards the client IS the specified protocol machine     *)
 
 Definition g_all (fs : list frame) : bool :=
-  g_shape fs && match fs with f :: r => g_truthy r | [] => true end.
+  g_shape fs && match fs with f :: r => g_nonnull r | [] => true end.
 
 Definition same_obs (a b : trace) : Prop :=
   t_connect a = t_connect b /\ t_events a = t_events b /\ erase_msg (t_fin a) = erase_msg (t_fin b).
@@ -398,7 +398,7 @@ Proof.
   pose proof (stream_coarse rq f) as C.
   destruct (skind_of f) eqn:K; simpl in Hf; try discriminate; rewrite C;
     destruct (run_from rq Streaming a) as [e q]; simpl in *;
-    try (destruct (truthy d)); simpl; rewrite <- IH; reflexivity.
+    try (destruct (nonnull d)); simpl; rewrite <- IH; reflexivity.
 Qed.
 
 (* non-terminal frames never call close() *)
@@ -411,7 +411,7 @@ Proof.
   pose proof (stream_coarse rq f) as C.
   destruct (skind_of f) eqn:K; simpl in Hf; try discriminate; rewrite C;
     destruct (run_from rq Streaming a) as [e q]; simpl in *;
-    try (destruct (truthy d)); simpl; exact IH.
+    try (destruct (nonnull d)); simpl; exact IH.
 Qed.
 
 (* ... and yield exactly the truthy data of their next frames, in order *)
@@ -420,14 +420,14 @@ Definition next_data (fs : list frame) : list json :=
 
 Lemma nonterminal_yields rq a :
   forallb (fun f => negb (terminal (skind_of f))) a = true ->
-  yielded_of (fst (run_from rq Streaming a)) = filter truthy (next_data a).
+  yielded_of (fst (run_from rq Streaming a)) = filter nonnull (next_data a).
 Proof.
   induction a as [|f a IH]; simpl; intro H; [reflexivity|].
   apply andb_true_iff in H as [Hf Ha]. specialize (IH Ha).
   pose proof (stream_coarse rq f) as C. unfold next_data in *. simpl.
   destruct (skind_of f) eqn:K; simpl in Hf; try discriminate; rewrite C;
     destruct (run_from rq Streaming a) as [e q]; simpl in *;
-    try (destruct (truthy d)); simpl; rewrite ?IH; reflexivity.
+    try (destruct (nonnull d)); simpl; rewrite ?IH; reflexivity.
 Qed.
 
 Lemma spec_yields r : yielded_of (fst (spec_stream r)) = next_data (spec_prefix r).
@@ -441,7 +441,7 @@ Definition nonterminal (a : list frame) : bool :=
   forallb (fun f => negb (terminal (skind_of f))) a.
 
 Lemma yields_partial c rq f r m : is_ack f = true -> subscribe_msg rq = Some m ->
-  g_truthy r = true ->
+  g_nonnull r = true ->
   yielded_of (t_events (run_ws c rq (f :: r))) = next_data (spec_prefix r).
 Proof.
   intros A M T. unfold run_ws. simpl. rewrite (await_ack rq f A), M.
@@ -476,7 +476,7 @@ Lemma complete_finishes c rq f a x b m : is_ack f = true -> subscribe_msg rq = S
   t_fin (run_ws c rq (f :: a ++ x :: b)) = Finished /\
   closes_of (t_events (run_ws c rq (f :: a ++ x :: b))) = 1 /\
   consumed_of (t_events (run_ws c rq (f :: a ++ x :: b))) = S (S (List.length a)) /\
-  yielded_of (t_events (run_ws c rq (f :: a ++ x :: b))) = filter truthy (next_data a).
+  yielded_of (t_events (run_ws c rq (f :: a ++ x :: b))) = filter nonnull (next_data a).
 Proof.
   intros A M N K. destruct (fin_after_prefix c rq f a (x :: b) m A M N) as (F & Y & C & R).
   rewrite F, Y, C, R, (nonterminal_no_close rq a N), (nonterminal_yields rq a N),
@@ -488,7 +488,7 @@ Qed.
 Lemma error_multi c rq f a x b m l : is_ack f = true -> subscribe_msg rq = Some m ->
   nonterminal a = true -> skind_of x = SError l -> shape_ok x = true ->
   t_fin (run_ws c rq (f :: a ++ x :: b)) = RaisedMulti l (frame_json x) /\
-  yielded_of (t_events (run_ws c rq (f :: a ++ x :: b))) = filter truthy (next_data a).
+  yielded_of (t_events (run_ws c rq (f :: a ++ x :: b))) = filter nonnull (next_data a).
 Proof.
   intros A M N K S. destruct (fin_after_prefix c rq f a (x :: b) m A M N) as (F & Y & _).
   rewrite F, Y, (nonterminal_yields rq a N). simpl.
@@ -498,7 +498,7 @@ Qed.
 Lemma malformed_invalid c rq f a x b m : is_ack f = true -> subscribe_msg rq = Some m ->
   nonterminal a = true -> skind_of x = SMalformed -> shape_ok x = true ->
   t_fin (run_ws c rq (f :: a ++ x :: b)) = RaisedInvalid (Some x) /\
-  yielded_of (t_events (run_ws c rq (f :: a ++ x :: b))) = filter truthy (next_data a).
+  yielded_of (t_events (run_ws c rq (f :: a ++ x :: b))) = filter nonnull (next_data a).
 Proof.
   intros A M N K S. destruct (fin_after_prefix c rq f a (x :: b) m A M N) as (F & Y & _).
   rewrite F, Y, (nonterminal_yields rq a N). simpl.
